@@ -55,6 +55,7 @@ pub struct ConnInfo {
     pub bytes_out: u64, // initiator -> acceptor
     pub bytes_in: u64,  // acceptor -> initiator
     pub accepted: bool,
+    pub refused: bool,
 }
 
 #[derive(Clone, Debug)]
@@ -301,7 +302,15 @@ pub async fn connect_as(task: TaskIds, protocol: u32, addr: &str, agent: bool) -
     }
     let pick = if crate::active() { crate::below("kern", 1 << 30) } else { 0 };
     let res = kernel::connect(task, protocol, kernel::AF_INET, *want.ip(), want.port(), pick)
-        .ok_or_else(|| io::Error::new(io::ErrorKind::AddrNotAvailable, "no free source port"))?;
+        .ok_or_else(|| {
+            if crate::active() {
+                crate::with(|w| {
+                    w.count("probe.connect_failed_between_hooks");
+                    w.log("net", format!("connect pid={} -> {} failed: no free source port", task.tgid, want));
+                });
+            }
+            io::Error::new(io::ErrorKind::AddrNotAvailable, "no free source port")
+        })?;
     let actual = SocketAddrV4::new(res.dst_ip, res.dst_port);
     let actual_s = actual.to_string();
     let src = SocketAddrV4::new(if res.dst_ip.is_loopback() { Ipv4Addr::LOCALHOST } else { Ipv4Addr::new(10, 0, 0, 4) }, res.src_port);
@@ -323,6 +332,9 @@ pub async fn connect_as(task: TaskIds, protocol: u32, addr: &str, agent: bool) -
     let refused = my_faults.iter().any(|f| matches!(f, FaultKind::Refuse));
     let r = with(|n| {
         if refused || !n.listeners.contains_key(&actual_s) {
+            n.next_conn += 1;
+            let id = n.next_conn;
+            n.conns.push(ConnInfo { id, initiator: task, src, requested_dst: want, actual_dst: actual, redirected: res.redirected, opened_ns: crate::time::now_ns(), bytes_out: 0, bytes_in: 0, accepted: false, refused: true });
             return Err(io::Error::new(io::ErrorKind::ConnectionRefused, "Connection refused (os error 111)"));
         }
         n.next_conn += 1;
@@ -350,6 +362,7 @@ pub async fn connect_as(task: TaskIds, protocol: u32, addr: &str, agent: bool) -
             bytes_out: 0,
             bytes_in: 0,
             accepted: false,
+            refused: false,
         });
         let l = n.listeners.get_mut(&actual_s).unwrap();
         l.queue.push_back((b, SocketAddr::V4(src)));
